@@ -283,12 +283,64 @@ func vfAllEnd() func(s *vrt.Sched) (string, string, string) {
 	}
 }
 
+// ---- scenario: a peer's ownership announcement races with the local re-registration of the shard ----
+
+// vfAnnouncementVsReregistration: the shard is registered locally at t1; a peer announces a claim stamped T > t1
+// (delivered through the real shardDelegate.NotifyMsg) while the local stream reconnects and registers again at
+// t3 > T. Whatever the interleaving, the newest claim (t3, local and alive) must still be registered at the end.
+func vfAnnouncementVsReregistration() func(s *vrt.Sched) (string, string, string) {
+	return func(s *vrt.Sched) (sig, detail, outcome string) {
+		mc := &config.MemberlistConfig{Enabled: true, NodeName: "n1", ProxyAddresses: map[string]string{"n1": "a1", "n2": "a2"}}
+		sm := NewShardManager(mc, config.ShardCountConfig{Mode: config.ShardCountRouting}, encryption.TLSConfig{}, vfNoopLoggers()).(*shardManagerImpl)
+		sm.SetupCallbacks()
+		sm.started = true
+		shard := history.ClusterShardID{ClusterID: 2, ShardID: 1}
+		oldCh := make(chan RoutedMessage, 4)
+		sm.SetRemoteSendChan(shard, oldCh)
+		oldAt := sm.RegisterShard(shard)
+		peerAt := vrt.Now()
+		data, _ := json.Marshal(ShardMessage{Type: "register", NodeName: "n2", ClientShard: shard, Timestamp: peerAt})
+		newCh := make(chan RoutedMessage, 4)
+		var panics []string
+		var newAt time.Time
+		vfGuard(s, "peer-announcement", &panics, func() { sm.delegate.NotifyMsg(data) })
+		vfGuard(s, "reconnect", &panics, func() {
+			// exit path of the old incarnation, entry path of the new one (proxyStreamSender.Run)
+			close(oldCh)
+			sm.UnregisterShard(shard, oldAt)
+			sm.RemoveRemoteSendChan(shard, oldCh)
+			sm.SetRemoteSendChan(shard, newCh)
+			newAt = sm.RegisterShard(shard)
+		})
+		s.Run()
+		_, owned := sm.GetLocalShards()[ClusterShardIDtoShortString(shard)]
+		outcome = fmt.Sprintf("owned=%v", owned)
+		if len(panics) > 0 {
+			return "crash/panic-escapes", fmt.Sprint(panics), outcome
+		}
+		if s.Deadlock != "" {
+			return "stuck/deadlock", s.Deadlock, outcome
+		}
+		if !newAt.After(peerAt) {
+			return "harness/clock", "the re-registration is not newer than the peer's claim", outcome
+		}
+		if !owned {
+			return "orphaned/ownership-lost-to-older-announcement", fmt.Sprintf("the local stream re-registered the shard at %v, after the peer's claim (%v), and is alive, but GetLocalShards() no longer lists the shard: the announcement removed a registration it had not compared", newAt, peerAt), outcome
+		}
+		if ch, ok := sm.GetRemoteSendChan(shard); !ok || ch != newCh {
+			return "orphaned/send-channel-lost", fmt.Sprintf("remoteSendChannels[shard] is not the new incarnation's channel (present=%v)", ok), outcome
+		}
+		return "", "", outcome
+	}
+}
+
 func vfC08Scenarios() map[string]func(s *vrt.Sched) (string, string, string) {
 	return map[string]func(s *vrt.Sched) (string, string, string){
-		"sender-overlap":            vfSenderOverlap(false),
-		"sender-three-incarnations": vfSenderOverlap(true),
-		"receiver-overlap":          vfReceiverOverlap(),
-		"all-streams-end":           vfAllEnd(),
+		"announcement-vs-reregistration": vfAnnouncementVsReregistration(),
+		"sender-overlap":                 vfSenderOverlap(false),
+		"sender-three-incarnations":      vfSenderOverlap(true),
+		"receiver-overlap":               vfReceiverOverlap(),
+		"all-streams-end":                vfAllEnd(),
 	}
 }
 
